@@ -359,6 +359,9 @@ func NewWorld(id string, exts ...graphql.Extension) *World {
 	})
 	mkObj("C", nodeIf, true, func() graphql.Fields {
 		fs := nodeFields()
+		// covariant narrowing of the interface field: makes NewSchema consult (and
+		// therefore create) the schema's possible-type table at construction
+		fs["peer"] = &graphql.Field{Type: w.Obj["C"], Args: graphql.FieldConfigArgument{"as": &graphql.ArgumentConfig{Type: graphql.String}}}
 		fs["cOnly"] = &graphql.Field{Type: graphql.Float}
 		fs["matrix"] = &graphql.Field{Type: graphql.NewList(graphql.NewList(graphql.NewNonNull(graphql.Int)))}
 		fs["deep"] = &graphql.Field{Type: deep}
